@@ -47,15 +47,17 @@ UNITS = {
     'K6e': {
         'engine': 'kani', 'crate': 'toml_edit',
         'harnesses': ['k6_edit_serialize_u64', 'k6_edit_serialize_i64', 'k6_edit_serialize_narrow',
-                      'k6_edit_serialize_128'],
+                      'k6_edit_serialize_128', 'k6_edit_serialize_f64', 'k6_edit_serialize_f32',
+                      'k6_edit_serialize_bool'],
         'complete': True, 'timeout': 600,
-        'title': 'toml_edit::ser::ValueSerializer integer conversions: every u64/i64/u32/../u128/i128 value',
+        'title': 'toml_edit::ser::ValueSerializer scalar conversions: every u64/i64/u32/../u128/i128, f64, f32, bool value',
     },
     'K6t': {
         'engine': 'kani', 'crate': 'toml',
-        'harnesses': ['k6_toml_serialize_u64', 'k6_toml_visit_u64', 'k6_toml_narrow'],
+        'harnesses': ['k6_toml_serialize_u64', 'k6_toml_visit_u64', 'k6_toml_narrow', 'k6_toml_floats',
+                      'k6_toml_visit_rest'],
         'complete': True, 'timeout': 600,
-        'title': 'toml::Value serializer and visitor integer conversions: every u64 value',
+        'title': 'toml::Value serializer and visitor scalar conversions: every u64/i64/i32/u32, f64, f32, bool value',
     },
     'K6d': {
         'engine': 'kani', 'crate': 'toml_edit',
@@ -67,6 +69,19 @@ UNITS = {
         'engine': 'kani', 'crate': 'toml_edit', 'harnesses': ['k11_span_bridge'], 'complete': True,
         'timeout': 600,
         'title': 'serde span bridge: SpannedDeserializer -> Spanned<i64>, every (start, end, value)',
+    },
+    'K14': {
+        'engine': 'kani', 'crate': 'toml_edit',
+        'harnesses': ['k14_apply_raw_integer', 'k14_apply_raw_scalars', 'k14_apply_raw_array',
+                      'k14_apply_raw_inline_table'],
+        'complete': True, 'timeout': 600,
+        'title': 'span production: apply_raw records exactly the given span on every value kind, value and decor as specified (every start <= end, every i64/f64/bool)',
+    },
+    'K14r': {
+        'engine': 'kani', 'crate': 'toml_edit', 'harnesses': ['k14_rawstring_despan'],
+        'complete': False, 'bound': 'inputs of exactly 4 ASCII bytes, every span inside them',
+        'timeout': 600,
+        'title': 'RawString: stored span reads back; to_str / despan give exactly input[span] (bounded: 4-byte ASCII inputs)',
     },
     'K12': {
         'engine': 'kani', 'crate': 'toml_edit',
@@ -97,6 +112,10 @@ UNITS = {
     'V9': {
         'engine': 'verus', 'complete': True,
         'title': 'hexescape::<N> closures: exactly N digits, hex value, Unicode scalar values only (unbounded, under assumed from_str_radix / char::from_u32 contracts)',
+    },
+    'V10': {
+        'engine': 'verus', 'complete': True,
+        'title': 'Display for TomlError: never panics, prints line + 1 / column + 1 and the caret under the column, whole text pinned (unbounded, under the assumed contract of translate_position and the TomlError invariant)',
     },
     # ---------------------------------------------------------------- Kani, complete per fixed input width
     'K2': {
@@ -155,14 +174,14 @@ UNITS = {
 # property -> tier -> unit list
 PLAN = {
     'C10': {'quick': ['V1', 'K1'], 'thorough': ['V1', 'K1']},
-    'C04': {'quick': ['V1', 'V3', 'V4', 'V5', 'V6', 'V7', 'V9', 'K1', 'K12'], 'thorough': ['V1', 'V3', 'V4', 'V5', 'V6', 'V7', 'V9', 'K1', 'K12', 'K8t', 'K3t', 'K5']},
+    'C04': {'quick': ['V1', 'V3', 'V4', 'V5', 'V6', 'V7', 'V9', 'V10', 'K1', 'K12'], 'thorough': ['V1', 'V3', 'V4', 'V5', 'V6', 'V7', 'V9', 'V10', 'K1', 'K12', 'K8t', 'K3t', 'K5']},
     'C11': {'quick': ['K7', 'K7s', 'K6e', 'K6t', 'K6d', 'V8', 'K11f'], 'thorough': ['K7', 'K7s', 'K6e', 'K6t', 'K6d', 'V8', 'K11f']},
     'C01': {'quick': ['K1', 'K7', 'V4', 'V8', 'V9', 'K2'], 'thorough': ['K1', 'K7', 'V4', 'V8', 'V9', 'K2', 'K2y', 'K5']},
-    'C02': {'quick': ['K2', 'K7s', 'V5', 'V7', 'V8', 'V9'], 'thorough': ['K2', 'K2y', 'K7s', 'V5', 'V7', 'V8', 'V9', 'K5']},
+    'C02': {'quick': ['K2', 'K7s', 'K6t', 'K6d', 'V5', 'V7', 'V8', 'V9'], 'thorough': ['K2', 'K2y', 'K7s', 'K6t', 'K6d', 'V5', 'V7', 'V8', 'V9', 'K5']},
     'C05': {'quick': ['V3', 'K12'], 'thorough': ['V3', 'K12']},
     'C12': {'quick': ['V4', 'V5', 'V6', 'V7', 'K2', 'K3q'], 'thorough': ['V4', 'V5', 'V6', 'V7', 'K2', 'K2y', 'K3q', 'K3t', 'K3a']},
-    'C14': {'quick': ['K11'], 'thorough': ['K11']},
-    'C15': {'quick': ['K8'], 'thorough': ['K8', 'K8t']},
+    'C14': {'quick': ['K11', 'K14', 'K14r'], 'thorough': ['K11', 'K14', 'K14r']},
+    'C15': {'quick': ['V10', 'K8'], 'thorough': ['V10', 'K8', 'K8t']},
 }
 
 LEVEL = 'proof'
